@@ -1,6 +1,7 @@
 #!/venv/bin/python
 """Re-runs every kept seeded change (seeded/*/) against the *current* checks
-and refreshes meta.json['detected_by'].  tools/reseed_all.py [--budget S]"""
+and refreshes meta.json['detected_by'].  tools/reseed_all.py [--budget S] [--match REGEX] [--dry]
+(--dry: report only, leave the meta.json files as they are)"""
 import glob
 import json
 import os
@@ -50,7 +51,9 @@ for d in sorted(glob.glob(os.path.join(HERE, 'seeded', '*'))):
     meta['detected_by'] = {p: {'exit': v['rc'], 'violations': v['violations']}
                            for p, v in res['checks'].items()}
     meta['confirmed']['last_rechecked_ok'] = bool(ok)
-    json.dump(meta, open(mp, 'w'), indent=1, sort_keys=True)
+    if '--dry' not in sys.argv:
+        json.dump(meta, open(mp, 'w'), indent=1, sort_keys=True)
+
     caught = [p for p, v in res['checks'].items() if v['rc'] == 1]
     print('%-10s confirmed=%s caught by %s' % (os.path.basename(d), ok,
                                                caught))
